@@ -149,6 +149,14 @@ fn main() {
             };
             vmon::c11::run(seed, &w)
         }
+        "c18-hostile" => {
+            let w = vmon::c18::Work {
+                truncation_templates: if quick { 2 } else { 7 },
+                random_faults: if quick { 1500 } else { 60_000 },
+                threads: if quick { 12 } else { 16 },
+            };
+            vmon::c18::run(seed, &w)
+        }
         "c05-exhaustive" => {
             let ns = n as u64;
             sharded(n, move |s| vmon::c05::run_exhaustive(s, ns))
